@@ -114,7 +114,7 @@ func init() {
 		add(C("TYPE"), C("TTL"), C("TYPE", k0, k1))
 		depth := 3
 		if tier == "thorough" {
-			depth = 4
+			depth = 5
 		}
 		return &Spec{Prop: "C01", ShardNum: shardNum, Keys: []string{k0, k1, kx}, Alphabet: ops, Seeds: typeSeeds(k0),
 			Depth: depth, Budget: budget(tier, 150*time.Second, 25*time.Minute), TTLTolMs: 1000,
